@@ -1,6 +1,6 @@
 (* C34 — the generic theorems instantiated with the table-driven wcwidth.OfRune. *)
 From verif Require Import lib.Base lib.Utf8 gen.Tables model.C34_width model.C34
-  proofs.C34_proofs proofs.C34_builder proofs.C34_search.
+  proofs.C34_proofs proofs.C34_builder proofs.C34_search proofs.C34_utf8 proofs.C34_utf8b.
 Open Scope Z_scope.
 
 Lemma of_rune_range r : 0 <= of_rune r <= 2.
@@ -67,6 +67,13 @@ Qed.
 Lemma table_search r :
   in_range r wcwidth_combiningRanges = in_range_lin r wcwidth_combiningRanges.
 Proof. apply in_range_correct. exact table_monotone. Qed.
+
+(* at the level of the returned Go strings (re-decoded by wcwidth.Of) *)
+Lemma trim_fits_wcwidth s n : 0 <= n -> of_bytes (trim_bytes s n) <= n.
+Proof. apply trim_bytes_fits. exact of_rune_nonneg. Qed.
+
+Lemma force_exact_wcwidth s n : 0 <= n -> of_bytes (force_bytes s n) = n.
+Proof. apply force_bytes_exact; [exact of_rune_nonneg | exact of_rune_space]. Qed.
 
 (* the oracle for observed widget lines *)
 Lemma lines_fit_sound ls W :
